@@ -72,7 +72,7 @@ impl Check for C06 {
             .into()
     }
     fn budget(t: Tier) -> usize {
-        t.pick(40_000, 600_000)
+        t.pick(40_000, 6_000_000)
     }
     fn fixed(t: Tier) -> Vec<Case> {
         fixed_lengths(t)
